@@ -91,7 +91,9 @@ def gen_kwargs(r, allow_prep):
         elif k == "optimal_fit_num_samples":
             kw[k] = int(r.choice([7, 9]))
         elif k == "method_kws":
-            kw[k] = [{}, {"max_nfev": 400}][int(r.integers(2))]
+            # (max_nfev large enough never to abort: lmfit's result after an
+            #  aborted fit is not reproducible even on identical inputs)
+            kw[k] = [{}, {"max_nfev": 20000}][int(r.integers(2))]
         elif k == "params_initial":
             kw[k] = ("PI", float(r.uniform(.5, 2)),
                      float(r.uniform(-1e-7, 1e-7)), bool(r.integers(2)))
@@ -189,26 +191,70 @@ def snapshot(idnt):
     return out
 
 
+APPROX = [0]
+RTOL = 1e-6
+
+
+def _close(x, y):
+    """numerically equivalent: used only after a bitwise mismatch.  Identical
+    inputs can give results differing in the last bits (numpy/scipy kernels
+    depend on memory alignment; lmfit amplifies that when a parameter sits on
+    a bound) - observed on the unchanged tree with fresh objects."""
+    if isinstance(x, np.ndarray):
+        if x.shape != y.shape or x.dtype != y.dtype:
+            return False
+        if x.dtype.kind != "f":
+            return False
+        nx, ny = np.isnan(x), np.isnan(y)
+        if not np.array_equal(nx, ny):
+            return False
+        if nx.all():
+            return True
+        scale = float(np.max(np.abs(y[~ny])))
+        return bool(np.max(np.abs(x[~nx] - y[~ny])) <= RTOL * scale)
+    if isinstance(x, (float, np.floating)) and \
+            isinstance(y, (float, np.floating)):
+        return abs(x - y) <= RTOL * max(abs(x), abs(y))
+    if isinstance(x, dict) and isinstance(y, dict) and set(x) == set(y):
+        return all(_close(x[k], y[k]) for k in x)
+    if isinstance(x, tuple) and isinstance(y, tuple) and len(x) == len(y):
+        return all(a == b or _close(a, b) for a, b in zip(x, y))
+    return False
+
+
 def same(a, b):
+    """None if the snapshots agree, else the name of the first field that
+    differs.  Bitwise first; a bitwise mismatch that is numerically
+    equivalent (RTOL) with an identical hash is counted in APPROX, not
+    reported."""
     if (a is None) != (b is None):
         return "presence"
     if a is None:
         return None
+    approx = False
     for k in a:
         if k not in b:
             return "missing:" + k
         x, y = a[k], b[k]
         if isinstance(x, np.ndarray):
             if not np.array_equal(x, y, equal_nan=True):
-                return k
+                if _close(x, y):
+                    approx = True
+                else:
+                    return k
         elif isinstance(x, float) and isinstance(y, float) and \
                 np.isnan(x) and np.isnan(y):
             continue
         elif x != y and not (x is None and y is None):
-            return k
+            if k != "hash" and _close(x, y):
+                approx = True
+            else:
+                return k
     for k in b:
         if k not in a:
             return "extra:" + k
+    if approx:
+        APPROX[0] += 1
     return None
 
 
@@ -325,7 +371,11 @@ def run_history(rec, tap, rng, cid):
                           "copy given the stored settings raises %s" % o,
                           case)
             continue
+        n_ap = APPROX[0]
         d = same(after, o)
+        if APPROX[0] != n_ap:
+            rec.event("comparisons equal to 1e-6 but not bitwise (library "
+                      "non-determinism)")
         if d is not None:
             rec.violation(classify(d, hist, idnt),
                           "after %d operations '%s' differs from a fresh copy "
